@@ -42,8 +42,11 @@ var baseTree = []srcFile{
 	{path: "src/d/sub", dir: true, mode: 0o2775, mtime: 1600000013},
 	{path: "src/d/sub/z", mode: 0o4755, data: "zzz", mtime: 1600000014},
 	{path: "src/d/lnk", link: "x"},
+	{path: "src/d/spool", dir: true, mode: 0o1777, mtime: 1600000016},
+	{path: "src/d/spool/t", mode: 0o1644, data: "sticky", mtime: 1600000017},
 	{path: "src/d/.keep", mode: 0o644, data: "", mtime: 1600000015},
 	{path: "src/lnkdir", link: "d"},
+	{path: "src/lnk2", link: "lnkdir"},
 	{path: "src/e", dir: true, mode: 0o700, mtime: 1600000020},
 	{path: "src/dangling", link: "/nonexistent/target"},
 	{path: "src/h", dir: true, mode: 0o755, mtime: 1600000030},
@@ -424,6 +427,10 @@ var c05KindsMore = []entrySpec{
 	{files.TypeTree, "src/odd"},
 	{files.TypeConfig, "src/odd/self"},
 	{"", "src/pat/app[12].conf"},
+	{"", "src/f1/"},
+	{files.TypeConfig, "src/d/x/"},
+	{files.TypeTree, "src/lnk2"},
+	{files.TypeTree, "src/lnk2/"},
 	{files.TypeConfig, "src/g[1].txt"},
 	{"", ".*rc"},
 	{files.TypeConfig, ".*"},
@@ -501,7 +508,8 @@ func genC05(tier string, seed int64, w *caseWriter, st *c05Stats) {
 			emit([]*files.Content{mkEntry(entrySpec{"", "src/f2"}, "/opt/\u00e9", "", 0), mkEntry(e.k, e.dst, "", 0)}, pk, 0o022, fixedMT, false, "f")
 		}
 	}
-	for _, k := range []entrySpec{{"", "src/pat/app[12].conf"}, {files.TypeConfig, "src/g[1].txt"}, {"", ".*rc"}, {files.TypeConfig, ".*"}, {"", ".hidden/**"}, {"", "src/f1"}} {
+	for _, k := range []entrySpec{{"", "src/f1/"}, {files.TypeConfig, "src/d/x/"}, {files.TypeTree, "src/lnk2"}, {files.TypeTree, "src/lnk2/"},
+		{"", "src/pat/app[12].conf"}, {files.TypeConfig, "src/g[1].txt"}, {"", ".*rc"}, {files.TypeConfig, ".*"}, {"", ".hidden/**"}, {"", "src/f1"}} {
 		for _, d := range []string{"/a", "/a/", "/a/b"} {
 			for _, tag := range []string{"", "termux.deb", "deb,rpm", "deb"} {
 				for _, pk := range []string{"", "deb", "termux.deb", "rpm"} {
